@@ -5,6 +5,7 @@ import FlVerif.Lemmas.ActivationLoops
 import FlVerif.Lemmas.ActivationLaws
 import FlVerif.Gen.Tables
 import FlVerif.Lemmas.CodeActivation
+import FlVerif.Lemmas.CodeBlockAct     -- `RuleBlock.activate`, `assert_is_not_vector`, `Comparator.operator`
 import FlVerif.Lemmas.CodeDegreeRule   -- the methods of `Rule` the loops call (theorems `C07.code_deactivate / code_activateWith / code_trigger`)
 
 /-! # C08 — activation methods trigger exactly the rules their definition selects
@@ -103,6 +104,49 @@ theorem code_activate (m : Method Rat) (rs : List (Rule Rat)) :
       | .error e => .error e.toPy
       | .ok o => .ok (o.rules, o.fires) :=
   Op.Activation.code_activate m rs
+
+/-! ### the caller of the loops and their two helpers
+
+In the translations above `self.assert_is_not_vector(d)` is the test of the flag `vector` of the rule and
+`self.comparator.operator(d, t)` is `cmp.eval d t`; the call `RuleBlock.activate` is what the engine makes.  The three
+functions are translated themselves (`Gen/CodeBlockAct.lean`). -/
+
+/-- **Tie A (code → model).**  `RuleBlock.activate` raises `ValueError` when the block has no activation method, and
+    otherwise returns what `self.activation.activate(self)` does - the translated `activate` of the method's class,
+    which by `code_activate` is `Op.Activation.activate`: its exception, or the rule states and contributions. -/
+theorem code_blockActivate (a : Option (Method Rat)) (rs : List (Rule Rat)) :
+    match a with
+    | none => Gen.Code.RuleBlock_activate.run none rs {} = .error Err.value.toPy
+    | some m =>
+      match Op.Activation.activate m rs with
+      | .error e => Gen.Code.RuleBlock_activate.run (some m) rs {} = .error e.toPy
+      | .ok o => ∃ σ, Gen.Code.RuleBlock_activate.run (some m) rs {} = .ok σ ∧ σ.ret = some (o.rules, o.fires) :=
+  Op.Activation.code_blockActivate a rs
+
+/-- **Tie A (code → model).**  `Activation.assert_is_not_vector(d)` with `n = np.size(d)`: `ValueError` exactly when
+    `n > 1` - the flag `vector` of `Spec.Activation.Rule` (`vectorOfSize n = decide (1 < n)`) -, no effect otherwise. -/
+theorem code_assertNotVector (n : Nat) :
+    (Gen.Code.Activation_assert_is_not_vector.run n {}).map (fun _ => ()) =
+      if vectorOfSize n then .error Err.value.toPy else .ok () :=
+  Op.Activation.code_assertNotVector n
+
+/-- **Tie A (code → model).**  `Threshold.Comparator.operator` is the look-up of `self.value` in the class table
+    `__operator__` (six `operator.*` functions, read from the live class when the definition is regenerated).  For a
+    symbol of the enumeration the function returned is `Spec.Activation.Comparator.eval` of that comparator (on scalar
+    degrees, NumPy semantics for NaN); for any other string the look-up is a `KeyError`. -/
+theorem code_comparator (s : String) :
+    match Comparator.ofSymbol s with
+    | none => Gen.Code.Comparator_operator.run s {} = .error .lookup
+    | some c => ∃ σ f, Gen.Code.Comparator_operator.run s {} = .ok σ ∧ σ.ret = some f ∧
+        ∀ d t : X Rat, f d t = c.eval d t :=
+  Op.Activation.code_comparator s
+
+/-- the symbols of the regenerated enumeration table are exactly the symbols `Comparator.ofSymbol` knows, so
+    `code_comparator` covers every member (and `ofName` / `ofSymbol` agree on each) -/
+theorem comparator_members :
+    Gen.Tables.comparators.map (fun p => (Comparator.ofName p.1, Comparator.ofSymbol p.2)) =
+      [(some .lt, some .lt), (some .le, some .le), (some .eq, some .eq), (some .ne, some .ne), (some .ge, some .ge),
+       (some .gt, some .gt)] := by decide
 
 /-! ## the loops compute the specified selection -/
 
